@@ -125,3 +125,21 @@ func ReadOpts(input []byte) []smf.ReadOption {
 	}
 	return nil
 }
+
+// TempoDecoy returns a copy of an SMF byte string of the same length in which every tempo event
+// (FF 51 03 x y z) carries another value (1 microsecond per quarter, or 2 if it was 1): what a
+// file of the same name and size looked like before it was saved again.
+func TempoDecoy(file []byte) []byte {
+	d := append([]byte{}, file...)
+	for i := 0; i+5 < len(d); i++ {
+		if d[i] == 0xFF && d[i+1] == 0x51 && d[i+2] == 0x03 {
+			v := byte(1)
+			if d[i+3] == 0 && d[i+4] == 0 && d[i+5] == 1 {
+				v = 2
+			}
+			d[i+3], d[i+4], d[i+5] = 0, 0, v
+			i += 5
+		}
+	}
+	return d
+}
